@@ -213,7 +213,7 @@ def run_harness(bindir, cases, seed, nrand, wd, tag="run", mutant=None):
     for p in (out, out + ".child"):
         if os.path.exists(p):
             os.remove(p)
-    vp.run([os.path.join(bindir, "hash_replay"), "--in", inp, "--out", out, "--seed", str(seed),
+    vp.run_subject([os.path.join(bindir, "hash_replay"), "--in", inp, "--out", out, "--seed", str(seed),
             "--rand", str(nrand)] + (["--mutant", mutant] if mutant else []), timeout=1500)
     return out, out + ".child"
 
